@@ -309,7 +309,7 @@ theorem remove_shape (reg : Registry) (t : Tick) (c e : Nat) (reg' : Registry) (
   obtain ⟨hsw1, hsw2, hsw3⟩ := swapRemove_entities g.entities e hnd hemem
   have hnotrest : ∀ e', ¬ memS (a ++ b) c e' := by
     intro e'; rw [← hgid]; exact not_memS_rest a b (g.ty, g.entities) huniq e'
-  rcases hcase with ⟨hreg', hnil⟩ | ⟨g', hty, hents, hnn, hreg'⟩
+  rcases hcase with ⟨hreg', hnil⟩ | ⟨g', hty, hents, hnn, hreg', _⟩
   · have hshape' : shape reg' = a ++ b := by
       rw [hreg']
       have : shape (reg.eraseIdx gi) = (shape reg).eraseIdx gi := by simp [shape, map_eraseIdx']
